@@ -205,9 +205,14 @@ class SymArray(np.ndarray):
 
     def tolist(self):
         base = self.view(np.ndarray)
-        if builtins.any(is_symbolic(x) for x in base.flat):
+        if not TOLIST_SYMBOLIC_OK and builtins.any(is_symbolic(x) for x in base.flat):
             raise HarnessError("tolist() on a symbolic array (serialisation boundary)")
         return base.tolist()
+
+
+# C19 carries symbolic leaves through the serialiser on purpose (placeholder codec); everywhere else tolist() on a symbolic array
+# is a boundary the engine refuses to cross silently
+TOLIST_SYMBOLIC_OK = False
 
 
 def _argext(arr, axis, better):
